@@ -473,7 +473,11 @@ func dtAddSpan(t *value.DateTime, s *value.DateTimeSpan) (*value.DateTime, value
 }
 
 func dtToDate(t *value.DateTime) (value.Date, value.Value) {
-	r, err := dCall(t, "Date")
+	name := "Date"
+	if reflect.ValueOf(t).MethodByName("CheckedDate").IsValid() {
+		name = "CheckedDate"
+	}
+	r, err := dCall(t, name)
 	if !err.IsUndefined() {
 		return value.Date{}, err
 	}
